@@ -131,7 +131,7 @@ theorem roundStep_spec (tf : Vec n → Vec n) (inB : Vec n → Bool) (r : Nat) :
         (roundStep tf inB r k ps rows).1.draw i = rows.draw i)
   | [], k, rows, i, _ => by simp [roundStep]
   | (i0, d) :: t, k, rows, i, hout => by
-    simp only [roundStep, memo_eq] at hout ⊢
+    simp only [roundStep, vget_ofFn] at hout ⊢
     have ih := roundStep_spec tf inB r t (k + 1) (rows.set i0 (tf d) d (r, k)) i
     have hres : i ∉ (roundStep tf inB r (k + 1) t (rows.set i0 (tf d) d (r, k))).2 := by
       intro hmem; apply hout; split <;> simp [hmem]
